@@ -52,6 +52,36 @@ def apply_edit(d, m):
         open(p, 'w').write(s)
 
 
+def scratch_facts(d):
+    """facts of a scratch copy; cached by the content hash of its sources (scratch copies only, never /repo itself)"""
+    import hashlib
+    import gzip
+    h = hashlib.sha256()
+    for root_, _dirs, files in sorted(os.walk(os.path.join(d, 'src'))):
+        for fn in sorted(files):
+            p = os.path.join(root_, fn)
+            h.update(os.path.relpath(p, d).encode())
+            h.update(open(p, 'rb').read())
+    for fn in ('Cargo.toml', 'Cargo.lock'):
+        if os.path.exists(os.path.join(d, fn)):
+            h.update(open(os.path.join(d, fn), 'rb').read())
+    h.update(open(os.path.join(VERIF, 'driver', 'src', 'main.rs'), 'rb').read())
+    cdir = os.path.join(VERIF, '.cache', 'scratch-facts')
+    os.makedirs(cdir, exist_ok=True)
+    cp = os.path.join(cdir, h.hexdigest()[:32] + '.json.gz')
+    if os.path.exists(cp):
+        try:
+            return Facts.build(json.load(gzip.open(cp, 'rt')))
+        except Exception:
+            pass
+    j = extract.extract('default', repo=d, manifest_dir=d)
+    try:
+        json.dump(j, gzip.open(cp, 'wt'))
+    except Exception:
+        pass
+    return Facts.build(j)
+
+
 def violations_for(prop, F, cfg='default'):
     mod = importlib.import_module('props.' + prop)
     ctx = engine.Ctx(prop, 'quick', {cfg: F})
@@ -84,7 +114,7 @@ def run_one(path):
         except RuntimeError as e:
             return name, 'STALE-ANCHOR', str(e)[:160]
         try:
-            F = Facts.build(extract.extract('default', repo=d, manifest_dir=d))
+            F = scratch_facts(d)
         except extract.ExtractError as e:
             return name, 'BROKEN-MUTANT', str(e)[-600:]
     finally:
@@ -136,7 +166,7 @@ def audit_for(prop, repo='/repo', limit=None):
                 out['skipped'].append(name)
                 continue
             try:
-                F = Facts.build(extract.extract('default', repo=d, manifest_dir=d))
+                F = scratch_facts(d)
             except extract.ExtractError:
                 out['skipped'].append(name)
                 continue
@@ -155,6 +185,27 @@ def audit_for(prop, repo='/repo', limit=None):
             else:
                 out['mutants_missed'].append(name)
         out['entries'].append(name)
+    for rd in sorted(glob.glob(os.path.join(VERIF, 'refactors', '*.diff'))):
+        name = 'refactors/' + os.path.basename(rd)
+        d = scratch_copy(repo)
+        try:
+            r = subprocess.run(['patch', '-p1', '-s', '-f', '-i', rd], cwd=d, capture_output=True, text=True)
+            if r.returncode != 0:
+                out['skipped'].append(name)
+                continue
+            try:
+                F = scratch_facts(d)
+            except extract.ExtractError:
+                out['skipped'].append(name)
+                continue
+        finally:
+            shutil.rmtree(d, ignore_errors=True)
+        vs = [v for v in violations_for(prop, F) if v['key'] not in base]
+        if vs:
+            out['refactor_alarms'].append(name)
+        else:
+            out['refactors_silent'] += 1
+        out['entries'].append(name)
     for sd in sorted(glob.glob(os.path.join(VERIF, 'seeded', prop + '-*'))):
         name = os.path.basename(sd)
         d = scratch_copy(repo)
@@ -164,7 +215,7 @@ def audit_for(prop, repo='/repo', limit=None):
                 out['skipped'].append(name)
                 continue
             try:
-                F = Facts.build(extract.extract('default', repo=d, manifest_dir=d))
+                F = scratch_facts(d)
             except extract.ExtractError:
                 out['skipped'].append(name)
                 continue
